@@ -289,6 +289,44 @@ func (g *Gen) OtherLine() *Node {
 var soupNums = []string{"0", "-0", "0.0", "1E+5", "1.50e3", "1e400", "9007199254740993", "18446744073709551616", "123456789012345678901234567890", "3.141592653589793238462643383279", "-1", "1.0", "100", "2e-7", "7469113720208097282", "0.1", "1e0", "12345678901234567890.123"}
 var soupStrs = []string{"", "plain", "with space", "quote\"inside", "back\\slash", "tab\there", "nl\nhere", "<tag>&amp;", " sep ", "é漢字", "😀 astral 𝔘", "$dollar", "a.b.c", "{\"json\":1}", "null", "true", "123", "/slash/", "\u0001ctl\u001f", "\u007fdel", "mail@example.com", "ünï@cödé.com", "2020-01-01T00:00:00Z"}
 
+// SpecialRunes: every C0 control character, DEL, C1 controls, format and
+// non-characters, line/paragraph separators, BOM, tag characters, the last
+// code point, JSON and HTML metacharacters.
+var SpecialRunes = func() []rune {
+	var r []rune
+	for c := rune(0); c < 0x20; c++ {
+		r = append(r, c)
+	}
+	return append(r, 0x7f, 0x80, 0x85, 0x9f, 0xa0, 0xad, 0x200b, 0x200e, 0x2028, 0x2029, 0xfeff, 0xfffd, 0xfffe, 0xffff, 0xe0001, 0xe007f, 0x1f600, 0x10ffff, 0xf0000, '"', '\\', '/', '<', '>', '&', '\'', '%', '$', '.')
+}()
+
+// SpecialString mixes 1–3 special runes with letters.
+func (g *Gen) SpecialString() string {
+	var sb []rune
+	for i, n := 0, g.rng(1, 3); i < n; i++ {
+		sb = append(sb, []rune(g.letters(g.rng(0, 2)))...)
+		sb = append(sb, SpecialRunes[g.R.Intn(len(SpecialRunes))])
+	}
+	return string(append(sb, []rune(g.letters(1))...))
+}
+
+// CharsetLines: one other-component line and one command line per special
+// rune, the rune inside a key and inside a string, outside and inside a zone.
+func (g *Gen) CharsetLines() []*Node {
+	var out []*Node
+	for _, r := range SpecialRunes {
+		x := string(r)
+		out = append(out, ObjN("t", ObjN("$date", StrN(g.ISODate())), "s", StrN("I"), "c", StrN("NETWORK"), "id", IntN(22943), "ctx", StrN("listener"), "msg", StrN("m"+x+"m"),
+			"attr", ObjN("k"+x+"k", StrN("v"+x+"v"), x, ArrN(StrN(x), ObjN(x+"z", StrN(x+x)))), x+"top", StrN(x)).With(&Tag{Role: Keep}))
+		line := ObjN("t", keep(ObjN("$date", StrN(g.ISODate()))), "s", KeepS("I"), "c", KeepS("COMMAND"), "id", KeepI(51803), "ctx", KeepS("conn"+x), "msg", KeepS("Slow query"),
+			"attr", ObjN("type", KeepS("command"), "ns", StrN("db1.c").With(&Tag{Role: NsFull}), "app"+x+"Name", KeepS("a"+x+"b"),
+				"command", ObjN("find", StrN("c").With(&Tag{Role: NsColl}), "filter", ObjN("f"+x+"g", sens(StrN(g.Token()), "str", "charset-filter"), "h", ObjN("$in", ArrN(sens(StrN(g.Token()), "str", "charset-in")))), "comm"+x+"ent", KeepS(x), "$db", StrN("db1").With(&Tag{Role: NsDB})),
+				"x"+x, keep(ObjN(x, IntN(1)))))
+		out = append(out, line)
+	}
+	return out
+}
+
 // Soup returns an arbitrary JSON tree (no planted secrets) to test that the
 // tool passes through everything outside the zones unaltered.
 func (g *Gen) Soup(d int) *Node {
@@ -306,6 +344,9 @@ func (g *Gen) Soup(d int) *Node {
 	case 4:
 		return NumN(g.Number())
 	case 5, 6, 7:
+		if g.R.Intn(6) == 0 {
+			return StrN(g.SpecialString())
+		}
 		return StrN(soupStrs[g.R.Intn(len(soupStrs))])
 	case 8:
 		return &Node{K: Arr, Vals: []*Node{}}
@@ -314,7 +355,11 @@ func (g *Gen) Soup(d int) *Node {
 	case 10, 11:
 		o := ObjN()
 		for i, n := 0, g.rng(1, 4); i < n; i++ {
-			o.Set(g.pick("k", "id", "$uuid", "$date", "$oid", "$binary", "base64", "x.y", "", "ns", "remote", "command", "filter", "$in", "é")+fmt.Sprint(g.R.Intn(3)), g.Soup(d-1))
+			k := g.pick("k", "id", "$uuid", "$date", "$oid", "$binary", "base64", "x.y", "", "ns", "remote", "command", "filter", "$in", "é") + fmt.Sprint(g.R.Intn(3))
+			if g.R.Intn(8) == 0 {
+				k = g.SpecialString()
+			}
+			o.Set(k, g.Soup(d-1))
 		}
 		return o
 	case 12:
